@@ -36,6 +36,22 @@ CHECKS = {
             FAKES + BASE, "2/C04"),
 }
 
+CHECKS.update({
+    "C05": ("exploration", "runtime monitoring: reference-model differential + audit-hook write monitor + context model",
+            "E1+E2+E3",
+            "Random programs under random well-nested obj.buffered / buffer_backend() contexts (depth <= 4) for the 8 "
+            "buffered classes: every result vs the unbuffered model, no file write while buffered (audit hook), "
+            "file == model at the outermost exit, no context entry/exit raises.",
+            "small-capacity stratum does not judge early writes (a forced flush is legitimate). " + BASE, "2/C05"),
+    "C06": ("exploration", "runtime monitoring: multi-object buffered histories against one shared model",
+            "E1+E2",
+            "k=2..4 objects on one file under one common buffered state (backend-wide, or per-object contexts "
+            "entered/left together in random orders), random role assignment and first-touch order; reads inside "
+            "vs shared model; file probed after the common exit must hold every write.",
+            "objects in different buffered states on one file are not generated (documented unsupported). " + BASE,
+            "2/C06"),
+})
+
 PENDING = {}
 
 
